@@ -20,6 +20,8 @@ import (
 	"golang.org/x/tools/go/ssa"
 )
 
+var scopeBounded = map[string][]boundedSpec{} // property id -> bounded stand-ins named in its scope
+
 type scopeUnit struct {
 	Func   string
 	Auto   bool     // automatic obligations (safe.*, dec.*, pre.*, frame.*) count for this property
@@ -50,6 +52,14 @@ func loadScope(id string) ([]scopeUnit, error) {
 			continue
 		}
 		fs := strings.Fields(l)
+		if fs[0] == "bounded" {
+			b, err := parseBoundedLine(l)
+			if err != nil {
+				return nil, err
+			}
+			scopeBounded[id] = append(scopeBounded[id], b)
+			continue
+		}
 		if fs[0] != "unit" || len(fs) < 2 {
 			return nil, fmt.Errorf("scope %s: bad line %q", id, l)
 		}
@@ -342,6 +352,19 @@ func cmdCheck(args []string) int {
 			"explanation": "a function in the property's cone left the verified subset (or lost its contract): its obligations can no longer be generated, so the property is undecided"})
 		violations = append(violations, fmt.Sprintf("VIOLATION property=%s replay=%s no-failing-input-found", id, rp))
 	}
+	// bounded stand-ins (never counted as discharged obligations)
+	var boundedEv []map[string]interface{}
+	for _, b := range scopeBounded[id] {
+		r := runBounded(b)
+		boundedEv = append(boundedEv, map[string]interface{}{"function_under_check": b.Test, "file": "/verif/bounded/" + b.File, "package": b.PkgDir,
+			"bound": b.Bound, "cases": r.Cases, "passed": r.Passed, "seconds": r.Seconds, "counted_as_proved": false})
+		if !r.Passed {
+			rp := writeReplay(id, "bounded_"+b.Test, map[string]interface{}{"property": id, "obligation": "bounded:" + b.Test, "kind": "bounded",
+				"bounded": b, "reproduced": true, "output": firstLines(r.Log, 40),
+				"explanation": "the bounded stand-in failed on the current tree: the line VFY-BOUNDED FAIL names the failing case"})
+			violations = append(violations, fmt.Sprintf("VIOLATION property=%s replay=%s", id, rp))
+		}
+	}
 	if total == 0 {
 		broken = true
 		fmt.Println("BROKEN: zero obligations generated")
@@ -391,7 +414,7 @@ func cmdCheck(args []string) int {
 		"known_findings_hit":    known,
 		"out_of_subset":         oos,
 		"modelling_notes":       notes,
-		"bounded_standins":      []string{},
+		"bounded_standins":      boundedEv,
 		"samples":               samples,
 		"extraction_drops":      "text of error/log messages; identity of error values (nil-ness, errors.Is class and wrapped bit are kept); permission bits; timing; GC; stack depth",
 		"explanation":           propExplanation[id],
